@@ -57,6 +57,15 @@ def check_pastify_driver(ix, rep, pcls, hcls):
     loops = [s for s in pf.node.body if isinstance(s, ast.For)]
     # iterations over the specs: for-loops and comprehensions (the comprehension node stands for its own loop)
     iters = []      # (node whose body is walked, iteration variable)
+    zipped = {}     # iteration variable paired with the spec variable by zip(ast.specs, L) -> L
+    for x in ast.walk(pf.node):
+        tgt_, it_ = (x.target, x.iter) if isinstance(x, ast.For) else ((x.generators[0].target, x.generators[0].iter) if isinstance(x, (ast.ListComp, ast.DictComp)) and len(x.generators) == 1
+                                                                     and not x.generators[0].ifs else (None, None))
+        if isinstance(tgt_, ast.Tuple) and len(tgt_.elts) == 2 and all(isinstance(e_, ast.Name) for e_ in tgt_.elts) and isinstance(it_, ast.Call) and getattr(it_.func, 'id', None) == 'zip' \
+                and len(it_.args) == 2 and ast.unparse(it_.args[0]) == 'ast.specs' and isinstance(it_.args[1], ast.Name):
+            # for spec, horizon in zip(ast.specs, L): the k-th element of L goes with the k-th spec
+            iters.append((x, tgt_.elts[0].id))
+            zipped[tgt_.elts[1].id] = it_.args[1].id
     for x in ast.walk(pf.node):
         if isinstance(x, ast.For) and isinstance(x.target, ast.Name) and 'ast.specs' in ast.unparse(x.iter):
             iters.append((x, x.target.id))
@@ -66,6 +75,10 @@ def check_pastify_driver(ix, rep, pcls, hcls):
 
     def _rewrite_of(e, var):
         return isinstance(e, ast.Call) and D._self_call(e) == 'visit' and len(e.args) >= 2 and isinstance(e.args[0], ast.Name) and e.args[0].id == var
+
+    def _comp_var(c_):
+        t_ = c_.generators[0].target
+        return t_.id if isinstance(t_, ast.Name) else (t_.elts[0].id if isinstance(t_, ast.Tuple) and isinstance(t_.elts[0], ast.Name) else None)
     # the rewritten specs, in the order of ast.specs, become ast.specs
     in_order = False
     assigned = [st for st in ast.walk(pf.node) if isinstance(st, ast.Assign) and len(st.targets) == 1 and ast.unparse(st.targets[0]) == 'ast.specs']
@@ -76,7 +89,7 @@ def check_pastify_driver(ix, rep, pcls, hcls):
             cands = [d_.value for d_ in ast.walk(pf.node) if isinstance(d_, ast.Assign) and len(d_.targets) == 1 and isinstance(d_.targets[0], ast.Name)
                      and d_.targets[0].id == v.id]
         for c_ in cands:
-            if isinstance(c_, ast.ListComp) and any(c_ is it_ for it_, _ in iters) and _rewrite_of(c_.elt, c_.generators[0].target.id):
+            if isinstance(c_, ast.ListComp) and any(c_ is it_ for it_, _ in iters) and _rewrite_of(c_.elt, _comp_var(c_)):
                 in_order = True
             if isinstance(c_, ast.List) and not c_.elts and isinstance(v, ast.Name):
                 # built by append in a loop over the specs: every iteration appends the rewrite of its spec (directly or through a local)
@@ -113,6 +126,22 @@ def check_pastify_driver(ix, rep, pcls, hcls):
                 and e.args and isinstance(e.args[0], ast.Name) and e.args[0].id == specvar:
             return True
         if depth > 3:
+            return False
+        # the partner of the spec variable in zip(ast.specs, L), L holding one horizon per spec in order
+        if isinstance(e, ast.Name) and e.id in zipped:
+            L = zipped[e.id]
+            for x in ast.walk(pf.node):
+                if isinstance(x, ast.Assign) and len(x.targets) == 1 and isinstance(x.targets[0], ast.Name) and x.targets[0].id == L and isinstance(x.value, ast.ListComp) \
+                        and len(x.value.generators) == 1 and not x.value.generators[0].ifs and isinstance(x.value.generators[0].target, ast.Name) \
+                        and ast.unparse(x.value.generators[0].iter) == 'ast.specs' and _is_own_horizon(x.value.elt, x.value.generators[0].target.id, x.value, depth + 1):
+                    return True
+            for lp, lpvar in iters:
+                if isinstance(lp, ast.For) and lp is not loop and isinstance(lp.target, ast.Name):
+                    apps = [q for q in lp.body if isinstance(q, ast.Expr) and isinstance(q.value, ast.Call) and isinstance(q.value.func, ast.Attribute) and q.value.func.attr == 'append'
+                            and isinstance(q.value.func.value, ast.Name) and q.value.func.value.id == L]
+                    if len(apps) == 1 and len(lp.body) >= 1 and all(not isinstance(q, (ast.If, ast.Continue, ast.Break)) for q in ast.walk(lp) if q is not lp) \
+                            and _is_own_horizon(apps[0].value.args[0], lpvar, lp, depth + 1):
+                        return True
             return False
         # a local of the same loop body bound once
         if isinstance(e, ast.Name):
